@@ -62,6 +62,9 @@ def add(run, tier, positions=False):
     lconc = Concrete('calmjs.parse.lexers.es5:Lexer.input', lcall, post, lambda tier, seed: [(t,) for t in EDGE],
                      bound='%d edge texts' % len(EDGE))
     verify_functions(run, cs, {}, {conc.qualname: conc, lconc.qualname: lconc}, tier=tier)
+    # the module-level parse(): a new Parser per call, the capture flag and the text handed on (contracts/baseunparser.py)
+    import contracts.baseunparser as cb_
+    verify_functions(run, [c for c in cb_.build(importlib.import_module('calmjs.parse.unparsers.base'), es5) if c.funcname == 'parse'], {}, {}, tier=tier)
     # the stream helper hands the parser exactly what the stream gave it (io.read; contracts/io.py)
     import contracts.io as cio_
     iomod = importlib.import_module('calmjs.parse.io')
